@@ -9,21 +9,21 @@ import subprocess
 HERE = os.path.dirname(os.path.abspath(__file__))
 
 STATUS = {
- "C01": ("desugarS/B/Else_sound, program_desugar_sound, desugarB_core, elif_order, strRel_* order lemmas, compile_preserves_meaning_partial (Safe), grouping_lost_witness, only_not_regroups (Props/C01, Sem/Core, Sem/Regroup)", "compiled program stdout/stop = re-reading model (restructuring + rustc's grouping of the emitted text + interpreter)", "CPython runs the same program; wrong results are attributed to the grouping finding only if the program is not Safe AND the re-reading model reproduces them; 16 feature templates outside the modelled core (classes + inheritance + overriding, traits with defaults, enums + match, Option/Result/?, f-strings, string methods, dicts, comprehensions, slices, tuples, counting-down ranges, recursion) with seeded constants, CPython as the reference (oracle only)"),
- "C02": ("accepted_body_builds_partial via bind_sim / stmt_sim / block_sim / else_sim / tyE_sim; nested_retype_accepted witness (Props/C02, Sem/CoreTyping)", "checker verdict + build outcome of 9 variants of generated bodies = chkB / rustB", "accepted ⇒ builds; 22 per-construct probes; 24 ill-typed programs (one broken static rule each: if the checker lets one through it must still build); every sampled subset of the derives on a model and a class; multi-file projects through the real `incan build`"),
- "C03": ("every_position_checked (mutual), elif_was_skipped witness, reassign_immutable_rejected / reassign_mutable_accepted / fresh_name_accepted, old_checker_missed_nested, omitted_variant_reported, complete_match_accepted, wrong_argument_reported, wrong_named_argument_reported, fitting_arguments_accepted, mutation_through_immutable_rejected / mutation_through_mutable_accepted (local_lookup_misses_nested_mutation witness), surplus_argument_reported, unknown_keyword_reported, missing_argument_reported, missing_required_method_reported, wrong_signature_reported, missing_required_field_reported, wrong_field_type_reported, conforming_adopter_accepted (Props/C03, Sem/Checker)", "single edits at every expression position / statement list of corpus + repository programs; scope depth grid (7 forms incl. `mut self` calls, field and index assignments = checkMutateThrough); random matches (variant names related by affix); calls with 1-4 parameters (incl. trait-typed, defaults), positional / keyword arguments, arity edits = validateArgs / surplusArgs / missingParams; generated trait / adopter pairs = conformance", "each edit must be rejected with a diagnostic on the edited lines; documented mutability rule; coverage of match arms; every wrong / surplus / unknown argument reported at that argument, every missing one on the call, and nothing else; adoption errors name exactly the missing / mistyped members, inside the adopter"),
+ "C01": ("desugarS/B/Else_sound, program_desugar_sound, desugarB_core, elif_order, strRel_* order lemmas, compile_preserves_meaning_partial (Safe), grouping_lost_witness, only_not_regroups; comprehensions: emitted_eq_meaning, meaning_mem, map_then_filter_differs witness (Props/C01, Sem/Core, Sem/Regroup, Sem/Comprehension)", "compiled program stdout/stop = re-reading model (restructuring + rustc's grouping of the emitted text + interpreter); lists printed by compiled comprehensions (6 conditions x 6 element expressions over lists and ranges) = model", "CPython runs the same program; wrong results are attributed to the grouping finding only if the program is not Safe AND the re-reading model reproduces them; 23 feature templates outside the modelled core (64-bit boundary arithmetic, filtered comprehensions over expressions, fields handed to functions, classes + inheritance + overriding, traits with defaults, enums + match, Option/Result/?, f-strings, string methods, dicts, comprehensions, slices, tuples, counting-down ranges, recursion) with seeded constants, CPython as the reference (oracle only)"),
+ "C02": ("accepted_body_builds_partial via bind_sim / stmt_sim / block_sim / else_sim / tyE_sim; nested_retype_accepted witness (Props/C02, Sem/CoreTyping)", "checker verdict + build outcome of 9 variants of generated bodies = chkB / rustB", "accepted ⇒ builds; 27 per-construct probes; 31 ill-typed programs (one broken static rule each: if the checker lets one through it must still build); every sampled subset of the derives on a model and a class; multi-file projects through the real `incan build`"),
+ "C03": ("every_position_checked (mutual), elif_was_skipped witness, reassign_immutable_rejected / reassign_mutable_accepted / fresh_name_accepted, old_checker_missed_nested, omitted_variant_reported, complete_match_accepted, wrong_argument_reported, wrong_named_argument_reported, fitting_arguments_accepted, mutation_through_immutable_rejected / mutation_through_mutable_accepted (local_lookup_misses_nested_mutation witness), surplus_argument_reported, unknown_keyword_reported, missing_argument_reported, wrong_default_reported / fitting_defaults_accepted (default values), missing_required_method_reported, wrong_signature_reported, missing_required_field_reported, wrong_field_type_reported, conforming_adopter_accepted (Props/C03, Sem/Checker)", "single edits at every expression position / statement list of corpus + repository programs; scope depth grid (7 forms incl. `mut self` calls, field and index assignments = checkMutateThrough); random matches (variant names related by affix); calls with 1-4 parameters (incl. trait-typed, defaults), positional / keyword arguments, arity edits = validateArgs / surplusArgs / missingParams; generated trait / adopter pairs = conformance", "each edit must be rejected with a diagnostic on the edited lines; documented mutability rule; coverage of match arms; every wrong / surplus / unknown argument reported at that argument, every missing one on the call, and nothing else; adoption errors name exactly the missing / mistyped members, inside the adopter"),
  "C04": ("floorDiv/mod = Int.fdiv/fmod for all Int64 pairs, core=std, identity, zero divisor, no other failure", "10 in-process streams: both integer kernels, 4 operand-type pairs of py_div/py_mod/py_floor_div, f64 wrappers; compiled streams: binary `/ // %` and compound `/= //= %=` on int / float / mixed operands, each spelled as variables or with the right / left operand a literal, random + a deterministic grid (operator x spelling x sign combination x kind), through the real pipeline + rustc (zero divisors included)", "Python `//`, `%`, `/`"),
  "C05": ("slice/index/range = CPython for all i64 (saturating step), str=list copy", "9 streams incl. both copies, range with cap, dict_get", "CPython `s[a:b:c]`, `range`; slice syntax on the real parser"),
- "C06": ("const_value_sound, const_type_sound (binConst_type), index_error_agrees, runtime_index_error_reported, slice_step_zero_agrees, static_fold_sound, ok_implies_no_repeat, cycle_is_rejected, never_out_of_fuel, resolution_terminates (Props/C06, Sem/ConstEval)", "checker on `const K = E` (verdict, type, const_values); same expression in a compiled function body; compiled consts; dependency graphs", "Python evaluates the expression; const type = body type; independent cycle DFS"),
+ "C06": ("const_value_sound, const_type_sound (binConst_type), index_error_agrees, runtime_index_error_reported, slice_step_zero_agrees, static_fold_sound, ok_implies_no_repeat, cycle_is_rejected, never_out_of_fuel, resolution_terminates; frozen sets: contains_iff, contains_perm, bisect_misses_unsorted witness (Props/C06, Sem/ConstEval, Sem/Comprehension)", "checker on `const K = E` (verdict, type, const_values); same expression in a compiled function body; compiled consts; dependency graphs; membership answered by compiled const sets", "Python evaluates the expression; const type = body type; independent cycle DFS; frozen const sets / lists answer membership and length like their literal; const comparisons mixing int and float"),
  "C07": ("phases_agree by structural induction; policy table by cases", "policy table (exhaustive), checker/IR/plan types over literals, parameters and operands only the checker can type (calls, fields, method calls), let/return/argument/compound verdicts, emit plan of the desugared compound assignment on a local variable and on a `mut` parameter", "documented table; Rust type of every emitted shape"),
- "C08": ("roundtrip over the expression ladder (WL derivations), fmt injective; literals: string_literal_roundtrip / string_literal_lexes / bytes_literal_roundtrip (formatter escaping read back by the lexer, Syntax/Literals), apostrophe_must_stay_bare witness", "parse, fmt, round trip (incl. rejections); fmtStr / fmtBytes = text written by the real formatter (every byte value); scanStr / scanBytes = real lexer on arbitrary literal texts", "AST equality on corpus + generators"),
+ "C08": ("roundtrip over the expression ladder (WL derivations), fmt injective; literals: string_literal_roundtrip / string_literal_lexes / bytes_literal_roundtrip (formatter escaping read back by the lexer, Syntax/Literals), apostrophe_must_stay_bare witness", "parse, fmt, round trip (incl. rejections); fmtStr / fmtBytes = text written by the real formatter (every byte value); scanStr / scanBytes = real lexer on arbitrary literal texts", "AST equality on corpus + generators (generated types in every position, nested match arms, 12-level nesting)"),
  "C09": ("fmt idempotent on the ladder; CLI decision logic; runFiles read-only; writer_hygiene (Tool/Writer: indentation, line breaks and blank lines add no tab and no trailing whitespace for any operation sequence), indenting_newline_leaves_trailing_blanks witness", "CLI single file (formatted / unformatted / unparsable + near-formatted variants: no final newline, extra blank lines at the end, trailing space, leading blank line, CRLF) + directory; real FormatWriter (hook) = model on generated operation sequences", "idempotence, check consistency (--check reports what fmt would rewrite), hygiene; generated types in every position (one-element tuple types, function types), nested match arms"),
- "C10": ("8 invariance theorems over all states/continuations; reindent under monotone maps", "layout model vs real lexer kinds", "AST equality under 11 edit kinds (incl. blanks after the last line break); text cut at the end of seeded logical lines parses the same with and without its final newline"),
+ "C10": ("8 invariance theorems over all states/continuations; reindent under monotone maps; eof_blank_tail_invisible / eof_comment_tail_invisible (blanks or a comment after the last line break, any width)", "layout model vs real lexer kinds", "AST equality under 11 edit kinds (incl. blanks after the last line break); text cut at the end of seeded logical lines parses the same with and without its final newline"),
  "C11": ("get_line_info slices on boundaries, EOF, C19 ranges (partial scope)", "format_error rendering incl. long lines", "whole pipeline fuzz with watchdog, incl. parseable programs with odd declaration graphs (generated extends cycles / self loops / unknown bases x trait adoption x uses that walk the graph)"),
  "C12": ("manifest_order_independent; module tree (Tool/ModuleTree): children_order_independent, children_nodup, carrier_order_independent, never_file_and_modrs, old_generator_wrote_both witness", "manifest repeated with fresh hash maps; generate_nested on generated path sets (shared prefixes, module = directory), three fresh hash maps each: files written + `pub mod` lines per directory = model", "3 processes × environments, in-process twice; error-provoking programs (several unknown keywords / wrong arguments / duplicate declarations)"),
- "C13": ("table_complete / table_sound / legal_keywords_rawable over tables REGENERATED from the source on every run, emitted_identifier_valid_partial, emit_injective, rename_preserves_binding, self_type_name_unemittable (Props/C13, Sem/Names, Generated/Keywords)", "is_keyword on every entry + near misses; emitTok = spelling of a local and a struct field in the emitted Rust; one compiled program per (binding position, name) incl. reflection (__fields__, __class_name__, JSON keys); sibling names (k, k_, _k, r_k, K) bound side by side", "renamed program behaves like the plain-named one; sibling bindings keep their own values"),
+ "C13": ("table_complete / table_sound / legal_keywords_rawable over tables REGENERATED from the source on every run, emitted_identifier_valid_partial, emit_injective, rename_preserves_binding, self_type_name_unemittable (Props/C13, Sem/Names, Generated/Keywords)", "is_keyword on every entry + near misses; emitTok = spelling of a local and a struct field in the emitted Rust; one compiled program per (binding position, name) over 38 positions (payload variants constructed / matched / bound, keyword arguments of functions and methods, closures with one and two parameters, field chains, consts in consts …) incl. reflection (__fields__, __class_name__, JSON keys); sibling names (k, k_, _k, r_k, K) bound side by side", "renamed program behaves like the plain-named one; sibling bindings keep their own values"),
  "C14": ("resolvers_agree_partial + 3 witnesses, private_rejected, exported_iff, private_decl_rejected, work-list lemmas", "both resolvers on real trees (incl. deep entries, multi-level parents), visibility verdicts (plain and `as`-aliased imports: alias fresh, alias = another pub name, alias = a private name), export computation on generated modules imported from the entry directory and from nested packages (pkg.inner, pkg.sub.deep)", "agreement, visibility, missing/cycle"),
- "C15": ("table_pinned over the crate table REGENERATED from add_rust_crate on every run, all_pinned, unknown_refused, deps_exact, names_nodup; json_trigger_found_everywhere / async_trigger_found_everywhere (Tool/Scanners: every walker step is one the scanner follows), json_trigger_was_missed witness", "ProjectGenerator + `incan build` (stub cargo) + trigger positions (json_stringify in 40 statement / expression / owner positions; serde derives in every decorator / list / declaration position); scanner sweep: model scans = real detect_*_usage with a trigger at every expression position of ~200 programs", "exactness, pinning, refs ⊆ declared"),
+ "C15": ("table_pinned over the crate table REGENERATED from add_rust_crate on every run, all_pinned, unknown_refused, deps_exact, names_nodup; json_trigger_found_everywhere / async_trigger_found_everywhere (Tool/Scanners: every walker step is one the scanner follows), json_trigger_was_missed witness", "ProjectGenerator + `incan build` (stub cargo) + trigger positions (json_stringify in 40 statement / expression / owner positions; serde derives in every decorator / list / declaration position); scanner sweep: model scans = real detect_*_usage with a trigger at every expression position of ~200 programs", "exactness, pinning, refs ⊆ declared; every placement of serde / async / web over the entry file and two dependency modules"),
  "C16": ("verdict_truthful, skip_not_run, xfail_inverts, filter_exact, all_selected_reported, exit_iff_failure, counts_match, collect_complete / collect_sound / collect_length (discovery over several files), first_of_name_hides_a_failure witness (Props/C16, Tool/TestRunner)", "real `incan test` on generated files (every executed test through cargo test)", "ground truth of the test bodies (9 ways to fail: assert, assert_eq / ne / true / false, fail, index, division by zero, unwrap of None), -k with and without --slow over matching slow tests, -x, four @skip spellings, the same test name in two files, nested directories and a symlinked directory"),
  "C17": ("construction_validated_partial, rejected_argument_stops, own_methods_exempt, other_methods_checked, select_sound / select_from_underlying / select_single, nominal, alias_bypasses witness (Props/C17, Sem/Newtype)", "compiled programs: 11 fixed declaration shapes + generated ones (1-3 methods, hook-shaped or near misses, hook-like and other names) × 19 sites × values; 6 underlying types", "hook enforced outside own methods; mixing newtypes rejected at 26 sites (annotations, return, argument, kwarg, default, method argument, field, append / insert / extend / index / dict store, Option / Result / tuple / comprehension / match arm)"),
  "C18": ("converges for all interleavings (ticket protocol); 3 counter-examples for the old protocol; save_with_ticket_loses_newer_version and per_document_tickets_resurrect_old_text witnesses; open_dependency_overrides_disk", "event-log replay (histories with opens, changes, closes and interleaved didSave notifications); importer diagnostics with a dependency text in the editor vs on disk", "hover = latest after quiescence; dependency scenarios must be sensitive"),
@@ -154,13 +154,36 @@ recorded in each `meta.json` (`detected_by`): C03-1/2, C06-1/2 (only the corresp
 C09-2, C11-1/2, C12-2, C14-1/2, C15-2, C16-1/2. Sub-agents also reported pre-existing defects, several of which became
 `fix:` commits (compound field assignment grouping, `elif` scanners, trait-method diagnostic order, newtype hook over
 generic underlying types, unknown slice bound in consts) or findings.
-""")
+
+The second half of round 3 (C04, C05, C07, C09–C12, C14, C16–C19) missed about half of its seeds at first as well, and
+each miss named a hole in a generator rather than in a theorem: operands that only the checker can type (calls, fields,
+method calls) and compound assignment on `mut` parameters (C07), aliased imports (C14), `.append` and 16 other
+element / field / argument sites for mixing newtypes (C17), operands written as literals in compiled arithmetic (C04),
+one-element tuple types (C09 / C08), blanks after the last line break (C10), parseable programs with cyclic declaration
+graphs (C11), several unknown keywords in one call (C12), the same test name in two files and symlinked directories
+(C16), `didSave` (C18), tabs in the position alphabets (C19). Where the mechanism had no model yet one was added
+(aliases: `alias_irrelevant`; discovery: `collect_complete`; the output writer: `writer_hygiene`; the module tree:
+`children_exact`, `never_file_and_modrs`) and the seeded behaviour is kept as a kernel-checked witness next to it
+(`local_name_check_is_wrong`, `first_of_name_hides_a_failure`, `indenting_newline_leaves_trailing_blanks`,
+`save_with_ticket_loses_newer_version`, `per_document_tickets_resurrect_old_text`). Defects the sub-agents or the
+widened generators found on the unchanged tree: `mut` int / float / bool parameters (call sites passed `&mut`),
+default values never type-checked, an extra line break after a `match` arm whose body is a `match` — repaired; spans of
+nodes inside f-string interpolations (now also a C11 finding), omitted default arguments (pinned by the
+`function_calls` snapshot) — recorded.
+__R4TEXT__""")
     metas = [json.load(open(m)) for m in sorted(glob.glob(os.path.join(HERE, "seeded", "*", "meta.json")))]
     r2 = [m for m in metas if m.get("round") == 2]
     miss = [m["seed_id"] for m in r2 if str(m.get("detected_by", "")).startswith("MISSED")]
     r3 = [m for m in metas if m.get("round") == 3]
     miss3 = [m["seed_id"] for m in r3 if str(m.get("detected_by", "")).startswith("MISSED")]
     out[-1] = out[-1].replace("__R3__", str(len(r3))).replace("__R3MISSLIST__", ", ".join(miss3) or "none").replace("__R3MISS__", str(len(miss3)))
+    r4 = [m for m in metas if m.get("round") == 4]
+    miss4 = [m["seed_id"] for m in r4 if str(m.get("detected_by", "")).startswith("MISSED")]
+    r4text = ""
+    if r4:
+        r4text = ("\nRound 4 (seeds `-7`, `-8`, eight properties): " + str(len(r4)) + " stored, " + str(len(miss4)) + " MISSED at first ("
+                  + (", ".join(miss4) or "none") + "); what was strengthened is in each `meta.json`.\n")
+    out[-1] = out[-1].replace("__R4TEXT__", r4text)
     out[-1] = out[-1].replace("__R2__", str(len(r2))).replace("__R2MISSLIST__", ", ".join(miss)).replace("__R2MISS__", str(len(miss)))
     out.append("""## Appendix E — hooks
 
